@@ -305,3 +305,84 @@ def arith_str(t):
     if k in ("param", "capture", "const", "constx"):
         return str(t[1])
     return "/".join(t[1])
+
+
+def named_local(body, operand):
+    """the user-named local that `operand` is (a borrow / copy / transparent view of), else the
+    innermost local reached"""
+    o = operand
+    for _ in range(12):
+        if o.get("k") not in ("copy", "move"):
+            return None
+        l = o["place"]["l"]
+        if body.local_name(l):
+            return l
+        d = mir.single_def(body, l)
+        if d is None:
+            return l
+        if d[0] == "call":
+            t = d[4]
+            if callee_names(t) & mir._transparent() and t["args"]:
+                o = t["args"][0]
+                continue
+            return l
+        rv = d[4]
+        if rv["k"] in ("ref", "copyforderef"):
+            o = {"k": "copy", "place": rv["place"]}
+        elif rv["k"] in ("use", "cast"):
+            o = rv["op"]
+        else:
+            return l
+    return None
+
+
+def local_by_name(body, name):
+    ls = [i for i, l in enumerate(body.locals) if l["name"] == name]
+    return ls[0] if len(ls) == 1 else None
+
+
+def switch_local_tests(body, local):
+    """switch blocks whose decision is a test of named local `local`:
+    -> [(switch_bb, kind, {target: labels}, call_term_or_None)]"""
+    out = []
+    for s in sorted(body.live_blocks()):
+        t = body.term(s)
+        if t["k"] != "switch":
+            continue
+        ds = mir.describe_switch(body, s)
+        if not ds:
+            continue
+        kind, subject, labels = ds
+        if kind == "call":
+            ct = body.term(subject[2])
+            if ct["args"] and named_local(body, ct["args"][0]) == local:
+                out.append((s, "call:" + (callee_def(ct) or "?").rsplit("::", 1)[-1], labels, ct))
+        elif kind in ("variant", "bool", "int", "cmp"):
+            # find the place the decision reads
+            o = t["discr"]
+            hit = False
+            for _ in range(6):
+                if o.get("k") not in ("copy", "move"):
+                    break
+                if o["place"]["l"] == local:
+                    hit = True
+                    break
+                d = mir.single_def(body, o["place"]["l"])
+                if d is None or d[0] != "assign":
+                    break
+                rv = d[4]
+                if rv["k"] == "discriminant":
+                    hit = rv["place"]["l"] == local
+                    break
+                if rv["k"] == "use":
+                    o = rv["op"]
+                elif rv["k"] == "unop":
+                    o = rv["x"]
+                elif rv["k"] == "binop":
+                    hit = any(x.get("k") in ("copy", "move") and named_local(body, x) == local for x in (rv["l"], rv["r"]))
+                    break
+                else:
+                    break
+            if hit:
+                out.append((s, kind, labels, None))
+    return out
